@@ -264,6 +264,19 @@ func (ln *lane) reqOpen(o *owner, name string, access uint32, how int, previous 
 		if c.minor == 1 && ln.w.t.Bool(1, 2) {
 			args.Claim = &nfsv4.OpenClaim4_CLAIM_FH{}
 			req.desc = fmt.Sprintf("OPEN owner=%s claim=FH file#%d access=%s %s", o.key, previous.leaf, accessName(access), howName)
+		} else if ln.w.t.Bool(1, 4) {
+			// Reclaim of a delegation: the servers never hand out
+			// delegations, so this is refused (NFS4ERR_RECLAIM_BAD) after
+			// the file was already opened on behalf of the request; the
+			// refusal must give that open back.
+			dt := nfsv4.OPEN_DELEGATE_READ
+			if ln.w.t.Bool(1, 2) {
+				dt = nfsv4.OPEN_DELEGATE_WRITE
+			}
+			args.Claim = &nfsv4.OpenClaim4_CLAIM_PREVIOUS{DelegateType: dt}
+			req.valid = false
+			req.desc += fmt.Sprintf(" delegate-type=%d (never granted)", dt)
+			ln.w.k.Probe("open-reclaim-of-delegation")
 		}
 	} else {
 		args.Claim = &nfsv4.OpenClaim4_CLAIM_NULL{File: name}
